@@ -147,5 +147,5 @@ pub fn property(tier: Tier) -> Property {
             exhaustive: false,
         }));
     }
-    Property { id: "C12", stages, assumptions: vec![] }
+    Property { id: "C12", scale: tier.pick(4, 2), stages, assumptions: vec![] }
 }
